@@ -78,6 +78,22 @@ def explore(r, k, G, starts, n, dev, double=False, dev2=1):
                                 edit_case(r, k, G, acc, start, w, [e1, e2])
 
 
+def explore_long(r, k, G, starts, n, stride):
+    """Long strands: rule-generated walks of n nucleotides, every single edit at every stride-th
+    interior position (all positions when stride == 1)."""
+    acc = U.A(G)
+    for start in starts:
+        for a, b in ((7, 3), (1, 0), (5, 1)):
+            w = U.rule_walk(G, start, n, a, b)
+            if len(w) < n:
+                continue
+            for p in range(k, n - 2 * k, stride):
+                for e in U.single_edits(w, p, p + 1):
+                    edit_case(r, k, G, acc, start, w, [e[:3]])
+            r.maxi('long_walk_nt', n)
+            r.ctr['long_walks'] += 1
+
+
 def check_case(r, kind, case):
     G = RP.graph_of(case)
     edit_case(r, case['k'], G, U.A(G), case['start'], case['w'], [tuple(e) for e in case['edits']])
@@ -86,7 +102,9 @@ def check_case(r, kind, case):
 def _w(chunk):
     r = core.Res()
     quick, items = chunk
+    import time as _t
     for item in items:
+        _t0 = _t.time()
         what, k = item[0], item[1]
         if what == 'mask':
             _, _, m, t, nstarts, dbl = item
@@ -98,11 +116,19 @@ def _w(chunk):
             _, _, G, t, nstarts, dbl = item
         live = sorted(O.has_arcs(G))
         starts = live if len(live) <= nstarts else live[:nstarts // 2] + live[-(nstarts - nstarts // 2):]
+        if what == 'long':
+            st3 = [live[0], live[len(live) // 2], live[-1]]
+            for n, stride in ((40, 1), (200, 7)) if quick else ((40, 1), (120, 1), (400, 5)):
+                explore_long(r, k, G, [st3[nstarts]], n, stride)
+            r.ctr['graphs_k%d' % k] += 1
+            r.maxi('item_wall_s_%s_k%d' % (what, k), _t.time() - _t0)
+            continue
         explore(r, k, G, starts, 3 * k + 3, 1 if quick else 2)
         explore(r, k, G, starts, 4 * k + 5, 1 if quick else 2)
         if dbl:
             explore(r, k, G, starts[:2] if quick else starts[:4], 7 * k + 4, 0, double=True, dev2=1 if quick else 2)
         r.ctr['graphs_k%d' % k] += 1
+        r.maxi('item_wall_s_%s_k%d' % (what, k), _t.time() - _t0)
     r.sample({'graph': core._j(item[2]) if item[0] == 'mask' else RP.gcase(item[1], item[2]), 't': item[3],
               'what': 'walks of length 3k+3 and 4k+5 with bounded deviations from every start x all single edits at positions [k, n-2k)'}, 1)
     return r
@@ -134,13 +160,20 @@ def run(ctx):
     fg = RP.filter_graphs((2, 3), small=q)
     for k, G, t in fg:
         items.append(('graph', k, G, t, 6 if q else 16, k == 2 and not q))
+    # long strands at orders 2..5 (high vertex indices, long index queues)
+    lg = RP.filter_graphs((4, 5), ts=(1, 2), small=True)
+    l4, l5 = [x for x in lg if x[0] == 4], [x for x in lg if x[0] == 5]
+    for k, G, t in fg[:2] + fg[-2:] + l4[:(2 if q else 6)] + l5[:(2 if q else 6)]:
+        for si in (0, 1, 2):
+            items.append(('long', k, G, t, si, False))
     ctx.log('graphs', len(items))
     ctx.pmap(_w, [(q, [it]) for it in items])
     ctx.bounds = {'order1': 'every distinct generated graph (all 15 masks x t=1..4)',
                   'order2': 'first %d generated graphs of every (vertex count, threshold in {2,3}) stratum: %d graphs' % (6 if q else 100, len(st)),
                   'filter_graphs_k2_k3': len(fg), 'walks': 'length 3k+3 and 4k+5, at most %d non-default arc choices' % (1 if q else 2),
                   'single_edits': 'every position of [k, n-2k), every substitution, insertion and deletion',
-                  'double_edits': 'spacing >= 3k+2 on walks of length 7k+4 (subset of graphs and starts)'}
+                  'double_edits': 'spacing >= 3k+2 on walks of length 7k+4 (subset of graphs and starts)',
+                  'long_walks': 'rule-generated walks of 40 and 200 (120, 400) nucleotides on filter graphs of order 2..5, every single edit at every (7th / 5th) interior position'}
     ctx.exhaustive = False
     ctx.rule = ('one case = (generated graph, start, walk, edit set): repair with indel handling on and heap 1e9 (also with the check of '
                 'the original, and with indel handling off for substitutions): if detected == number of edits the original is among '
